@@ -178,6 +178,16 @@ Section Expr.
     all: split; auto; try tauto.
   Qed.
 
+  Lemma binop_check_ex op ta tb :
+    binop_check T op ta tb = Ok tt <-> (ta = tb /\ exists r, bin_typing op ta r).
+  Proof.
+    unfold binop_check, bin_typing, numeric. rewrite Hbc, Hbreq.
+    destruct (spec_bin_class op) eqn:C; try (destruct op; discriminate C).
+    all: destruct ta, tb; simpl; split; intros H; try discriminate; try (split; auto; eexists; eauto; fail).
+    all: try (destruct H as [H1 [r H2]]; try discriminate; try reflexivity; destruct H2 as [H2 H3];
+              try discriminate; destruct H2; discriminate).
+  Qed.
+
   Lemma un_ok op t r :
     (require (ot_un_req T op) t = Ok tt /\ res_ty (ot_un_res T op) (Ok t) = Ok r) <-> un_typing op t r.
   Proof.
@@ -279,5 +289,182 @@ Section Expr.
       + inversion H as [|? ? ? Hhx Hhps]; subst. fold (cav x). apply (cav_iff x Hx) in Hhx. rewrite Hhx. cbn [obind].
         replace (require (spec_pseudo_req k) (spec_pseudo_ty k)) with (Ok tt : outcome unit) by (destruct k; reflexivity).
         cbn [obind]. apply IH; auto.
+  Qed.
+
+  Lemma zip_go_firstn (f : texpr -> outcome ety) args : forall ps,
+    zip_go f args ps = zip_go f args (firstn (length args) ps).
+  Proof.
+    induction args as [|a args IH]; intros [|p ps]; simpl; auto.
+    destruct (do y <- f a; as_value y); simpl; auto.
+    destruct (param_accepts (fst p) a0); simpl; auto.
+  Qed.
+
+  Lemma zip_all (f : texpr -> outcome ety) args : forall ps, length args = length ps ->
+    zip_go f args ps = Ok tt -> all_go f args = Ok tt.
+  Proof.
+    induction args as [|a args IH]; intros [|p ps] Hl H; simpl in *; try discriminate; auto.
+    bind_inv H ta Hta. bind_inv H u Hu. bind_inv Hta y Hy. rewrite Hy. cbn [obind].
+    apply (IH ps); auto.
+  Qed.
+
+  Lemma args_typed_length args ps : args_typed G args ps -> length args = length ps.
+  Proof. induction 1; simpl; auto. Qed.
+
+  Lemma param_accepts_ok p t : param_accepts p t = Ok tt <-> (p = Untyped \/ p = Typed t).
+  Proof.
+    destruct p as [|pt]; simpl.
+    - split; auto.
+    - destruct (sty_eqb t pt) eqn:E.
+      + apply sty_eqb_eq in E. subst. split; auto.
+      + split; intros H; try discriminate. destruct H as [H|H]; try discriminate.
+        inversion H; subst. rewrite sty_eqb_refl in E. discriminate.
+  Qed.
+
+  Lemma zip_go_iff args :
+    Forall (fun a => eguard a = true -> forall t, check_expr T G a = Ok t <-> has_type G a t) args ->
+    forallb eguard args = true ->
+    forall ps, length args = length ps ->
+    (zip_go (check_expr T G) args ps = Ok tt <-> args_typed G args ps).
+  Proof.
+    induction 1 as [|a args Ha Hargs IH]; intros Hg [|p ps] Hl; simpl in *; try discriminate.
+    - split; intros; auto. constructor.
+    - apply andb_true_iff in Hg. destruct Hg as [Hg1 Hg2]. specialize (Ha Hg1).
+      split; intros H.
+      + bind_inv H ta Hta. bind_inv H u Hu. destruct u. apply (cav_iff a Ha) in Hta. apply param_accepts_ok in Hu.
+        econstructor; eauto. apply IH; auto.
+      + inversion H as [|? ? ? ? t Hha Hp Hrest]; subst. fold (cav a).
+        apply (cav_iff a Ha) in Hha. rewrite Hha. cbn [obind].
+        apply param_accepts_ok in Hp. rewrite Hp. cbn [obind]. apply IH; auto.
+  Qed.
+
+  Lemma check_expr_iff : forall e, eguard e = true ->
+    forall t, (check_expr T G e = Ok t <-> has_type G e t).
+  Proof.
+    induction e using texpr_ind2; intros Hg t.
+    - simpl; split; intros Hc; inversion Hc; subst; constructor.
+    - simpl; split; intros Hc; inversion Hc; subst; constructor.
+    - simpl; split; intros Hc; inversion Hc; subst; constructor.
+    - (* var *) simpl. split; intros Hc.
+      + bind_inv Hc t0 Ht0. inversion Hc; subst. constructor. apply check_var_ok. exact Ht0.
+      + inversion Hc as [| | |? ? Hv| | | | | | | | |]; subst. apply check_var_ok in Hv. rewrite Hv. reflexivity.
+    - (* enum *) simpl; split; intros Hc; inversion Hc; subst; constructor.
+    - (* bin *) simpl in Hg. apply andb_true_iff in Hg. destruct Hg as [Hg1 Hg2].
+      assert (I1 := IHe1 Hg1). assert (I2 := IHe2 Hg2).
+      change (check_expr T G (TBin e1 op e2)) with
+        (do ta <- cav e1; do tb <- cav e2; do u_ <- binop_check T op ta tb; do r <- binop_ty T G op e1; Ok (Value r)).
+      split; intros Hc.
+      + bind_inv Hc ta Hta. bind_inv Hc tb Htb. bind_inv Hc u Hu. bind_inv Hc r Hr. inversion Hc; subst.
+        assert (Hca : compute_ty T G e1 = Ok (Value ta)).
+        { apply compute_ty_agrees; auto. unfold cav in Hta. bind_inv Hta y Hy. apply as_value_ok in Hta. subst. exact Hy. }
+        unfold binop_ty in Hr. rewrite Hca in Hr. cbn [obind expect_value] in Hr.
+        destruct u. destruct (proj1 (bin_ok op ta tb r) (conj Hu Hr)) as [-> Hbt].
+        apply (cav_iff e1 I1) in Hta. apply (cav_iff e2 I2) in Htb.
+        econstructor; eauto.
+      + inversion Hc as [| | | | |? ? ? t0 r Hha Hhb Hbt| | | | | | |]; subst.
+        assert (Hca : compute_ty T G e1 = Ok (Value t0)).
+        { apply compute_ty_agrees; auto. apply I1. exact Hha. }
+        apply (cav_iff e1 I1) in Hha. apply (cav_iff e2 I2) in Hhb. rewrite Hha, Hhb. cbn [obind].
+        destruct (proj2 (bin_ok op t0 t0 r) (conj eq_refl Hbt)) as [Hu Hr].
+        rewrite Hu. cbn [obind]. unfold binop_ty. rewrite Hca. cbn [obind expect_value]. rewrite Hr. reflexivity.
+    - (* un *) simpl in Hg. assert (I1 := IHe Hg).
+      change (check_expr T G (TUn op e)) with
+        (do tx <- cav e; do u_ <- require (ot_un_req T op) tx; do r <- unop_ty T G op e; Ok (Value r)).
+      split; intros Hc.
+      + bind_inv Hc tx Htx. bind_inv Hc u Hu. bind_inv Hc r Hr. inversion Hc; subst.
+        assert (Hca : compute_ty T G e = Ok (Value tx)).
+        { apply compute_ty_agrees; auto. unfold cav in Htx. bind_inv Htx y Hy. apply as_value_ok in Htx. subst. exact Hy. }
+        unfold unop_ty in Hr. rewrite Hca in Hr. cbn [obind expect_value] in Hr.
+        destruct u. apply (cav_iff e I1) in Htx. econstructor; eauto. apply un_ok. split; auto.
+      + inversion Hc as [| | | | | |? ? t0 r Hhx Hut| | | | | |]; subst.
+        assert (Hca : compute_ty T G e = Ok (Value t0)).
+        { apply compute_ty_agrees; auto. apply I1. exact Hhx. }
+        apply (cav_iff e I1) in Hhx. rewrite Hhx. cbn [obind].
+        apply un_ok in Hut. destruct Hut as [Hu Hr]. rewrite Hu. cbn [obind].
+        unfold unop_ty. rewrite Hca. cbn [obind expect_value]. rewrite Hr. reflexivity.
+    - (* xcr *) simpl. split; intros Hc.
+      + bind_inv Hc t0 Ht0. bind_inv Hc u Hu. inversion Hc; subst.
+        destruct t0; simpl in Hu; try discriminate. constructor. apply check_var_ok. exact Ht0.
+      + inversion Hc as [| | | | | | |? Hv| | | | |]; subst. apply check_var_ok in Hv. rewrite Hv. reflexivity.
+    - (* tern *) simpl in Hg. apply andb_true_iff in Hg. destruct Hg as [Hg Hg3]. apply andb_true_iff in Hg. destruct Hg as [Hg1 Hg2].
+      assert (I1 := IHe1 Hg1). assert (I2 := IHe2 Hg2). assert (I3 := IHe3 Hg3).
+      change (check_expr T G (TTern e1 e2 e3)) with
+        (do tyl <- cav e2; do tyr <- cav e3; do tyc <- cav e1; do u_ <- require RQ_int tyc; do r <- require_same tyl tyr; Ok (Value r)).
+      split; intros Hc.
+      + bind_inv Hc tyl Htyl. bind_inv Hc tyr Htyr. bind_inv Hc tyc Htyc. bind_inv Hc u Hu. bind_inv Hc r Hr.
+        inversion Hc; subst. apply require_same_ok in Hr. destruct Hr; subst.
+        destruct tyc; simpl in Hu; try discriminate.
+        apply (cav_iff e1 I1) in Htyc. apply (cav_iff e2 I2) in Htyl. apply (cav_iff e3 I3) in Htyr.
+        constructor; auto.
+      + inversion Hc as [| | | | | | | |? ? ? t0 Hhc Hhl Hhr| | | |]; subst.
+        apply (cav_iff e1 I1) in Hhc. apply (cav_iff e2 I2) in Hhl. apply (cav_iff e3 I3) in Hhr.
+        rewrite Hhc, Hhl, Hhr. cbn [obind require]. unfold require_same. rewrite sty_eqb_refl. reflexivity.
+    - (* diff *) simpl in Hg. apply andb_true_iff in Hg. destruct Hg as [Hg1 Hg2].
+      assert (I1 := IHe Hg1).
+      change (check_expr T G (TDiff e rest)) with
+        (do t0 <- cav e; do r <- diff_go (check_expr T G) rest t0; Ok (Value r)).
+      assert (HD := diff_go_iff rest H Hg2).
+      split; intros Hc.
+      + bind_inv Hc t0 Ht0. bind_inv Hc r Hr. inversion Hc; subst.
+        apply HD in Hr. destruct Hr as [-> Hr]. apply (cav_iff e I1) in Ht0. constructor; auto.
+      + inversion Hc as [| | | | | | | | |? ? t0 Hhf Hhr| | |]; subst.
+        apply (cav_iff e I1) in Hhf. rewrite Hhf. cbn [obind].
+        rewrite (proj2 (HD t0 t0) (conj eq_refl Hhr)). reflexivity.
+    - (* label *) simpl; split; intros Hc; inversion Hc; subst; constructor.
+    - (* call *)
+      simpl in Hg. apply andb_true_iff in Hg. destruct Hg as [Hg Hg3]. apply andb_true_iff in Hg. destruct Hg as [Hg1 Hg2].
+      assert (HP := pseudos_go_iff ps H Hg2).
+      assert (HZ := zip_go_iff args H0 Hg3).
+      change (check_expr T G (TCall f ps args)) with
+        (do u_ <- pseudos_go T (check_expr T G) ps;
+         if negb (fn_is_ins G f) && negb (match ps with [] => true | _ => false end) then Err E_TYPE
+         else if has_blob ps then match args with [] => Ok Void | _ :: _ => Err E_TYPE end
+         else match fn_sig G f with
+              | None => Err E_TYPE
+              | Some s =>
+                  if negb (Nat.eqb (length args) (min_args s)) then Err E_TYPE
+                  else do params <- zip_params T s;
+                       do u_ <- zip_go (check_expr T G) args params;
+                       do u_ <- all_go (check_expr T G) args;
+                       Ok (sg_ret s)
+              end).
+      split; intros Hc.
+      + bind_inv Hc u Hu. destruct u. apply HP in Hu.
+        destruct (negb (fn_is_ins G f) && negb match ps with [] => true | _ => false end) eqn:C1; try discriminate.
+        destruct (has_blob ps) eqn:HB.
+        * destruct args; try discriminate. inversion Hc; subst. constructor; auto.
+          destruct ps; [discriminate HB|]. simpl in C1. rewrite andb_true_r in C1.
+          destruct (fn_is_ins G f); auto; discriminate.
+        * destruct (fn_sig G f) as [s|] eqn:HS; try discriminate.
+          destruct (Nat.eqb (length args) (min_args s)) eqn:HL; simpl in Hc; try discriminate.
+          apply Nat.eqb_eq in HL.
+          bind_inv Hc params Hp. bind_inv Hc u1 Hu1. bind_inv Hc u2 Hu2. inversion Hc; subst.
+          destruct u1. econstructor; eauto.
+          { intros Hne. destruct ps; [congruence|]. simpl in C1. rewrite andb_true_r in C1.
+            destruct (fn_is_ins G f); auto; discriminate. }
+          unfold zip_params in Hp. unfold call_ok in Hg1. unfold min_args in HL.
+          destruct (ot_call_zip T); try discriminate.
+          -- inversion Hp; subst. rewrite HS in Hg1. apply padding_lastb_ok in Hg1.
+             rewrite zip_go_firstn in Hu1. rewrite HL in Hu1. unfold padding_last, min_args in Hg1.
+             rewrite Hg1 in Hu1. apply HZ; auto.
+          -- inversion Hp; subst. apply HZ; auto.
+      + inversion Hc as [| | | | | | | | | | |? ? Hps Hins Hbl|? ? ? s Hps Hins Hbl Hs Hargs]; subst.
+        * apply HP in Hps. rewrite Hps. cbn [obind]. rewrite Hins, Hbl. reflexivity.
+        * apply HP in Hps. rewrite Hps. cbn [obind].
+          assert (C1 : negb (fn_is_ins G f) && negb match ps with [] => true | _ => false end = false).
+          { destruct ps; simpl; [apply andb_false_r|]. rewrite Hins by congruence. reflexivity. }
+          rewrite C1, Hbl, Hs.
+          assert (HL := args_typed_length _ _ Hargs).
+          unfold min_args. rewrite <- HL. rewrite Nat.eqb_refl. cbn [negb].
+          unfold zip_params. unfold call_ok in Hg1.
+          destruct (ot_call_zip T); try discriminate; cbn [obind].
+          -- rewrite Hs in Hg1. apply padding_lastb_ok in Hg1. unfold padding_last, min_args in Hg1.
+             assert (HZ' : zip_go (check_expr T G) args (sg_params s) = Ok tt).
+             { rewrite zip_go_firstn. rewrite HL. rewrite Hg1. apply HZ; auto. }
+             rewrite HZ'. cbn [obind].
+             rewrite (zip_all _ args (filter nondefault (sg_params s)) HL).
+             ++ reflexivity.
+             ++ apply HZ; auto.
+          -- rewrite (proj2 (HZ _ HL) Hargs). cbn [obind].
+             rewrite (zip_all _ args _ HL (proj2 (HZ _ HL) Hargs)). reflexivity.
   Qed.
 End Expr.
